@@ -12,8 +12,8 @@ from harness.framework import Suite
 from harness.swctext import Expect
 
 PID = "C16"
-TRANSLATE_ALGO = ["AlgoNode", "AlgoAssemble"]   # regenerated on every run from transforms/branch_tree.py (BranchTreeAssembler.__call__), node.py (detach), tree.py (Node.children)
-DRIVER_FILES = ["SwcVerif/Model/AlgoRunAssemble.lean"]
+TRANSLATE_ALGO = ["AlgoNode", "AlgoAssemble", "AlgoResample"]   # regenerated on every run from transforms/branch_tree.py (BranchTreeAssembler.__call__), node.py (detach), tree.py (Node.children)
+DRIVER_FILES = ["SwcVerif/Model/AlgoRunAssemble.lean", "SwcVerif/Model/AlgoRunResample.lean"]
 LEAN_MODS = ["SwcVerif.Props.C16", "SwcVerif.Props.C16Length", "SwcVerif.Props.C16Pair", "SwcVerif.Props.C16PairLoc", "SwcVerif.Props.C16Asm", "SwcVerif.Props.C16AsmGen"]
 THEOREMS = [
     "C16Asm.machine_eq_sub", "C16Asm.assemble_eq", "C16Asm.assemble_sorted", "C16Asm.assemble_wf", "C16Asm.assemble_length", "C16Asm.branch_is_chain",
@@ -190,13 +190,16 @@ class BranchSuite(Suite):
                 return True
             return f
 
-        if k == "smooth":
-            return [(f"smooth v={rats(cols[i])} k={case['k']}", Expect(close([got[:, i].tolist()]), f"impl col {i}: {got[:, i].tolist()}")) for i in range(3)]
-        base = f"lens={rats(case['lens'])} x={rats(cols[0])} y={rats(cols[1])} z={rats(cols[2])} r={rats(cols[3])}"
+        # every case is also run through the GENERATED definitions (Gen/AlgoResample.lean, translated from transforms/branch.py on this run): ops g*
+        xyzr_txt = f"x={rats(cols[0])} y={rats(cols[1])} z={rats(cols[2])} r={rats(cols[3])}"
         want = [got[:, i].tolist() for i in range(4)] if len(got) else [[], [], [], []]
+        if k == "smooth":
+            return [(f"smooth v={rats(cols[i])} k={case['k']}", Expect(close([got[:, i].tolist()]), f"impl col {i}: {got[:, i].tolist()}")) for i in range(3)] + [
+                (f"gsmooth {xyzr_txt} k={case['k']}", Expect(close(want), f"impl: {want}"))]
+        base = f"lens={rats(case['lens'])} {xyzr_txt}"
         if k == "lin":
-            return [(f"lin {base} n={case['n']}", Expect(close(want), f"impl: {want}"))]
-        return [(f"iso {base} d={Fraction(case['d'])} adj={int(k == 'iso')}", Expect(close(want), f"impl: {want}"))]
+            return [(f"{g}lin {base} n={case['n']}", Expect(close(want), f"impl: {want}")) for g in ("", "g")]
+        return [(f"{g}iso {base} d={Fraction(case['d'])} adj={int(k == 'iso')}", Expect(close(want), f"impl: {want}")) for g in ("", "g")]
 
     @guarded
     def oracle(self, case, res):
